@@ -992,6 +992,61 @@ no role - a store confers trust only through a certificate IDENTICAL to one of t
 theorem run_sameKey_irrelevant (i : Input) (g : List (List CertId)) :
     run { i with sameKey := g } = run i := rfl
 
+/-- **run_copyEdits_irrelevant**: what callers wrote into statements that the verifier's documents
+handed out (`GetApplicableTrustPolicy` / `GetGlobalTrustPolicy`: deep copies) plays no role - the
+verification runs under the statement of the DOCUMENT. The correspondence run holds the
+implementation to this prediction after such edits: an accessor that hands out the loop variable,
+a pointer into the document, or a clone that shares a slice / the override map disagrees, and its
+observation (a store the document never listed is loaded, trust comes from it, another statement
+or none applies, the action changed) violates the clauses below, which read `statements` only. -/
+theorem run_copyEdits_irrelevant (i : Input) (e : List CopyEdit) :
+    run { i with copyEdits := e } = run i := rfl
+
+/-- the property does not read the edits either: no edit of a copy can excuse an observation -/
+theorem holds_copyEdits_irrelevant (i : Input) (e : List CopyEdit) (o : Obs) :
+    Holds { i with copyEdits := e } o = Holds i o := rfl
+
+/-! What a LEAK would look like: the statement list a document would read if the edits of the
+copies had been made to the document itself (fields the model knows: `trustStores`, `scopes`).
+Used to show that the clauses convict such an implementation (examples below) and that, with no
+edits, nothing is leaked. -/
+
+def modifyAt (f : Stmt → Stmt) : Nat → List Stmt → List Stmt
+  | _, [] => []
+  | 0, s :: r => f s :: r
+  | n + 1, s :: r => s :: modifyAt f n r
+
+def leakOne (kind : String) (stmts : List Stmt) (e : CopyEdit) : List Stmt :=
+  if e.doc.toList = kind.toList then
+    if e.field.toList = "trustStores".toList then modifyAt (fun s => { s with trustStores := e.values }) e.stmt stmts
+    else if e.field.toList = "registryScopes".toList then modifyAt (fun s => { s with scopes := e.values }) e.stmt stmts
+    else stmts
+  else stmts
+
+/-- the input as a leaking implementation would see it -/
+def leaked (i : Input) : Input :=
+  { i with statements := i.copyEdits.foldl (leakOne i.kind) i.statements }
+
+theorem leaked_no_edits (i : Input) (h : i.copyEdits = []) : leaked i = i := by
+  cases i; simp only [leaked] at *; subst h; rfl
+
+/-- edits of copies of the OTHER document's statements could not even leak into this one -/
+theorem leaked_other_document (i : Input) (h : ∀ e ∈ i.copyEdits, e.doc.toList ≠ i.kind.toList) :
+    leaked i = i := by
+  unfold leaked
+  have : ∀ (es : List CopyEdit) (st : List Stmt), (∀ e ∈ es, e.doc.toList ≠ i.kind.toList) →
+      es.foldl (leakOne i.kind) st = st := by
+    intro es
+    induction es with
+    | nil => intro st _; rfl
+    | cons e es ih =>
+      intro st hh
+      have he : leakOne i.kind st e = st := by
+        unfold leakOne; rw [if_neg (hh e (List.mem_cons_self ..))]
+      rw [List.foldl_cons, he]
+      exact ih st (fun e' he' => hh e' (List.mem_cons_of_mem _ he'))
+  rw [this i.copyEdits i.statements h]
+
 /-- hence any two verifications that differ only in their history are predicted alike -/
 theorem run_eq_of_same_call (i j : Input) (hs : i.scheme = j.scheme) (hc : i.chain = j.chain)
     (hst : i.statements = j.statements) (hr : i.repo = j.repo) (hw : i.world = j.world)
@@ -1014,7 +1069,8 @@ def exInput (scheme : Scheme) (l : List String) : Input :=
   { scheme := scheme, chain := [0, 1, 2], repo := "reg.example/a".toList, world := exWorld,
     statements := [ ⟨["reg.example/a".toList], l.map String.toList, .strict, false⟩,
                     ⟨["*".toList], ["ca:alpha".toList, "signingAuthority:alpha".toList], .strict, false⟩ ],
-    refOk := true, sameKey := [], identityOk := true, plugin := "none", backend := "mem", format := "jws", kind := "oci", history := [] }
+    refOk := true, sameKey := [], identityOk := true, plugin := "none", backend := "mem", format := "jws", kind := "oci",
+    copyEdits := [], history := [] }
 
 /-- trusted: the root is in the listed ca store -/
 example : run (exInput .x509 ["ca:gamma", "tsa:alpha", "ca:alpha", "ca:gamma"]) =
@@ -1069,6 +1125,34 @@ example : (run { exInput .x509 [] with
 example : (run { exInput .x509 [] with
       repo := "reg.example/ns/app".toList
       statements := [⟨["reg.example/ns".toList], ["ca:alpha".toList], .strict, false⟩] }).result = .noPolicy := by decide
+
+/-- a caller edited ITS copy of the applicable statement (in place: every element of trustStores
+became `ca:alpha`, the store that holds the signer's root): the prediction is that of the document,
+which lists `ca:gamma` only - fail, `ca:gamma` loaded - -/
+def exEdited : Input :=
+  { exInput .x509 ["ca:gamma"] with
+    copyEdits := [⟨"oci", "GetApplicableTrustPolicy", 0, "trustStores", "element", ["ca:alpha".toList]⟩] }
+example : run exEdited = { result := .fail, calls := [⟨"ca".toList, "gamma".toList⟩], accepted := false } := by decide
+/-- ... a verifier whose document took the edit passes with a load of `ca:alpha`, -/
+example : run (leaked exEdited) = { result := .pass, calls := [⟨"ca".toList, "alpha".toList⟩], accepted := true } := by decide
+/-- ... and the property (which reads the document's list) convicts exactly that observation: trust from,
+and a load of, a store the applicable statement does not list -/
+example : Holds exEdited (run (leaked exEdited)) = false := by decide
+example : ((clauses exEdited (run (leaked exEdited))).filter (fun c => !c.2)).map (·.1) =
+    ["pass_only_if_chain_certificate_in_listed_store_of_required_type",
+     "only_listed_stores_of_required_type_are_loaded", "loads_follow_list_order",
+     "pass_has_loaded_every_listed_store_of_required_type"] := by decide
+/-- an edited scope of the copy: a leak makes the statement inapplicable (no policy) - convicted as well -/
+example : Holds { exInput .x509 ["ca:alpha"] with
+      statements := [⟨["reg.example/a".toList], ["ca:alpha".toList], .strict, false⟩],
+      copyEdits := [⟨"oci", "GetApplicableTrustPolicy", 0, "registryScopes", "element", ["reg.example/z".toList]⟩] }
+    (run (leaked { exInput .x509 ["ca:alpha"] with
+      statements := [⟨["reg.example/a".toList], ["ca:alpha".toList], .strict, false⟩],
+      copyEdits := [⟨"oci", "GetApplicableTrustPolicy", 0, "registryScopes", "element", ["reg.example/z".toList]⟩] })) = false := by decide
+/-- an edit of a copy taken from the blob document cannot concern a Verify against the OCI document -/
+example : leaked { exEdited with copyEdits := [⟨"blob", "GetGlobalTrustPolicy", 0, "trustStores", "assign", ["ca:alpha".toList]⟩] } =
+    { exEdited with copyEdits := [⟨"blob", "GetGlobalTrustPolicy", 0, "trustStores", "assign", ["ca:alpha".toList]⟩] } := by
+  apply leaked_other_document; decide
 
 end examples
 
